@@ -20,6 +20,7 @@ type Config struct {
 	Unpriv      bool // keep everything owner-accessible (unprivileged pass)
 	OddTimes    bool // pre-1970 / post-2038 mtimes
 	ExtraNames  []string
+	LinkPct     int // share of nodes that are symlinks (default 18)
 }
 
 var plainNames = []string{"a", "b", "c", "foo", "bar", "x.txt", "main.tf", "README.md", "mod", "sub", "data", "baz.txt"}
@@ -63,13 +64,17 @@ func genSpec(cfg Config) *rapid.Generator[spec] {
 			s.Name = rapid.SampledFrom(plainNames).Draw(t, "name")
 		}
 		k := rapid.IntRange(0, 99).Draw(t, "kind")
+		lp := cfg.LinkPct
+		if lp == 0 {
+			lp = 18
+		}
 		switch {
+		case k >= 93-lp && k < 93 && (cfg.Links || cfg.OutLinks):
+			s.Kind = "symlink"
 		case k < 45:
 			s.Kind = "file"
 		case k < 75:
 			s.Kind = "dir"
-		case k < 93 && (cfg.Links || cfg.OutLinks):
-			s.Kind = "symlink"
 		case k < 97 && cfg.Special:
 			s.Kind = rapid.SampledFrom([]string{"fifo", "socket"}).Draw(t, "special")
 		default:
